@@ -6,6 +6,9 @@
 //!   sbs.dec sbs.spec  from_sparse_bit_set_bounded on encodings, mutated encodings, random bytes
 //!   is.run            IntSet<u32|u16|u8|GlyphId16|Disc> op-sequence interpreter, 3 registers,
 //!                     full observation vector after every op
+//!   isc.run           the same histories on the CONCRETE model (pages vector + page_map + in-place
+//!                     process): exact layout after every op (observed through Serialize), the
+//!                     behaviours computed from it, and abs(concrete) = abstract
 //! Oracles (model-independent): interval-merge reference for RangeSet; reference interval-set
 //! (`RefSet`, boolean sweep over breakpoints) for IntSet; an independent bit-level breadth-first
 //! decoder written from the IFT specification text for the codec; encode→decode round trips.
@@ -627,6 +630,118 @@ fn ref_cmp(a: &[Iv], b: &[Iv]) -> std::cmp::Ordering {
     }
 }
 
+// ---------------------------------------------------------------------------------------------
+// the concrete BitSet layout, observed through `Serialize` (pages / page_map / length)
+// ---------------------------------------------------------------------------------------------
+
+const LAYOUT_FULL_CAP: usize = 8;
+const CONC_ITER_CAP: u64 = 5000;
+
+struct Layout {
+    inverted: bool,
+    length: u64,
+    pages: Vec<([u64; 8], u64)>,
+    page_map: Vec<(u64, u64)>, // (major_value, index)
+}
+
+fn layout_of<T: Dom>(set: &IntSet<T>) -> Result<Layout, String> {
+    let v = serde_json::to_value(set).map_err(|e| e.to_string())?;
+    let o = v.as_object().ok_or("not an object")?;
+    let (inverted, b) = if let Some(b) = o.get("Inclusive") { (false, b) } else if let Some(b) = o.get("Exclusive") { (true, b) } else { return Err("no variant".into()) };
+    let num = |x: &serde_json::Value| x.as_u64().ok_or_else(|| format!("not a u64: {x}"));
+    let mut pages = vec![];
+    for p in b["pages"].as_array().ok_or("pages")? {
+        let st = p["storage"].as_array().ok_or("storage")?;
+        if st.len() != 8 { return Err("storage len".into()); }
+        let mut w = [0u64; 8];
+        for (i, x) in st.iter().enumerate() { w[i] = num(x)?; }
+        pages.push((w, num(&p["length"])?));
+    }
+    let mut page_map = vec![];
+    for e in b["page_map"].as_array().ok_or("page_map")? {
+        page_map.push((num(&e["major_value"])?, num(&e["index"])?));
+    }
+    Ok(Layout { inverted, length: num(&b["length"])?, pages, page_map })
+}
+
+impl Layout {
+    fn numbers(&self) -> Vec<u64> {
+        let mut v = vec![self.inverted as u64, self.length, self.pages.len() as u64, self.page_map.len() as u64];
+        for (m, i) in &self.page_map { v.push(*m); v.push(*i); }
+        for (w, l) in &self.pages { v.extend_from_slice(w); v.push(*l); }
+        v
+    }
+    fn hash(&self) -> u64 {
+        const P: u128 = 2305843009213693951;
+        let mut h: u128 = 7;
+        for x in self.numbers() { h = (h * 1000003 + (x as u128 % P) + 1) % P; }
+        h as u64
+    }
+    fn full(&self) -> String {
+        if self.pages.len() > LAYOUT_FULL_CAP { return "-".into(); }
+        let pm = if self.page_map.is_empty() { "-".to_string() } else { self.page_map.iter().map(|(m, i)| format!("{m}:{i}")).collect::<Vec<_>>().join(",") };
+        let pg = if self.pages.is_empty() { "-".to_string() } else {
+            self.pages.iter().map(|(w, l)| format!("{}:{l}", w.iter().map(|x| x.to_string()).collect::<Vec<_>>().join("."))).collect::<Vec<_>>().join(",")
+        };
+        format!("{pm}/{pg}")
+    }
+    /// the representation invariant bitset.rs relies on (model-independent oracle)
+    fn invariant(&self) -> Result<(), String> {
+        if self.pages.len() != self.page_map.len() { return Err(format!("pages {} != page_map {}", self.pages.len(), self.page_map.len())); }
+        if !self.page_map.windows(2).all(|w| w[0].0 < w[1].0) { return Err("page_map not strictly sorted by major".into()); }
+        let mut seen = vec![false; self.pages.len()];
+        for (_, i) in &self.page_map {
+            let i = *i as usize;
+            if i >= seen.len() { return Err(format!("index {i} out of bounds")); }
+            if seen[i] { return Err(format!("index {i} referenced twice")); }
+            seen[i] = true;
+        }
+        let mut sum = 0u64;
+        for (w, l) in &self.pages {
+            let pc: u64 = w.iter().map(|x| x.count_ones() as u64).sum();
+            if pc != *l { return Err(format!("page length {l} but popcount {pc}")); }
+            sum += l;
+        }
+        if sum != self.length { return Err(format!("length {} but pages sum to {sum}", self.length)); }
+        Ok(())
+    }
+}
+
+/// what the concrete Lean model must reproduce: the exact layout + the behaviours computed from it
+fn conc_observe<T: Dom>(s: &mut Session, set: &IntSet<T>, probes: &[u32], ret: &str, history: &str) -> String {
+    let input = || format!("IntSet<{}> ops [{history}]", T::NAME);
+    let lay = match layout_of(set) {
+        Ok(l) => l,
+        Err(e) => { s.oracle("bitset-layout-serialises", false, input, || e.clone()); return "noserde".into(); }
+    };
+    let inv_ok = lay.invariant();
+    s.oracle("bitset-layout-invariant(pages<->page_map bijection,sorted,lengths)", inv_ok.is_ok(), input, || format!("{inv_ok:?} layout {}", lay.full()));
+    let small = lay.length <= CONC_ITER_CAP && lay.pages.len() as u64 <= CONC_ITER_CAP;
+    let cont = T::is_continuous();
+    let pr = |v: &[(u32, u32)]| if v.is_empty() { "-".to_string() } else { v.iter().map(|(a, b)| format!("{a}:{b}")).collect::<Vec<_>>().join(",") };
+    let rest = catch(|| {
+        let ranges = if small && cont {
+            let v: Vec<(u32, u32)> = if lay.inverted {
+                set.iter_excluded_ranges().take(ITER_CAP).map(|r| (r.start().to_u32(), r.end().to_u32())).collect()
+            } else {
+                set.iter_ranges().take(ITER_CAP).map(|r| (r.start().to_u32(), r.end().to_u32())).collect()
+            };
+            pr(&v)
+        } else { "-".into() };
+        let (fwd, back) = if small && !lay.inverted {
+            (nats(&set.iter().take(ITER_CAP).map(|x| x.to_u32()).collect::<Vec<_>>()),
+             nats(&set.iter().rev().take(ITER_CAP).map(|x| x.to_u32()).collect::<Vec<_>>()))
+        } else { ("-".to_string(), "-".to_string()) };
+        let contains: String = probes.iter().map(|p| bit(set.contains(T::mk(*p)))).collect();
+        format!("{ranges};{fwd};{back};{contains}")
+    });
+    let rest = match rest { Ok(r) => r, Err(e) => { s.oracle("intset-observers-never-panic", false, input, || e.clone()); "panic".into() } };
+    s.count(&format!("conc.pages={}", lay.pages.len().min(9)));
+    if lay.page_map.iter().enumerate().any(|(k, (_, i))| *i as usize != k) { s.count("conc.layout:pages-out-of-major-order"); } else { s.count("conc.layout:pages-in-major-order"); }
+    if lay.pages.iter().any(|(_, l)| *l == 0) { s.count("conc.layout:has-empty-page"); }
+    format!("{ret};{};{};{};{};{};{rest};A1", bit(lay.inverted), lay.length, lay.pages.len(), lay.hash(), lay.full())
+}
+
 struct Machine<T: Dom> {
     real: [IntSet<T>; 3],
     refs: [Vec<Iv>; 3],
@@ -825,6 +940,7 @@ fn run_sequence<T: Dom>(s: &mut Session, group: &'static str, ops: &[Op]) {
     probes.dedup();
     let mut m: Machine<T> = Machine { real: [IntSet::empty(), IntSet::empty(), IntSet::empty()], refs: [vec![], vec![], vec![]], probes: probes.clone() };
     let mut obs: Vec<String> = vec![];
+    let mut obs_c: Vec<String> = vec![];
     let mut hist = String::new();
     let mut applied = 0usize;
     for op in ops {
@@ -892,6 +1008,7 @@ fn run_sequence<T: Dom>(s: &mut Session, group: &'static str, ops: &[Op]) {
                     eprintln!("observe: IntSet<{}> ops [{hist}]", T::NAME);
                 }
                 let o = m.observe(s, r, &ret, &hist);
+                obs_c.push(conc_observe::<T>(s, &m.real[r], &probes, &ret, &hist));
                 if t0.elapsed().as_millis() > 500 && std::env::var_os("C14_TRACE").is_some() {
                     eprintln!("slow observe {} ms: IntSet<{}> ops [{hist}]", t0.elapsed().as_millis(), T::NAME);
                 }
@@ -908,6 +1025,64 @@ fn run_sequence<T: Dom>(s: &mut Session, group: &'static str, ops: &[Op]) {
     }
     let req = format!("is.run {} {} {}", T::NAME, nats(&probes), ops[..applied].iter().map(|o| o.token()).collect::<Vec<_>>().join(" "));
     s.case(group, req, if obs.is_empty() { "-".into() } else { obs.join(" | ") });
+    // the same history against the CONCRETE model (pages vector + page_map, in-place process)
+    let n_c = obs_c.len();
+    let req_c = format!("isc.run {} {} {}", T::NAME, nats(&probes), ops[..n_c].iter().map(|o| o.token()).collect::<Vec<_>>().join(" "));
+    let group_c: &'static str = match group {
+        "intset.exhaustive" => "intset.exhaustive.conc",
+        "intset.u32" => "intset.u32.conc",
+        "intset.u16" => "intset.u16.conc",
+        "intset.u8" => "intset.u8.conc",
+        "intset.gid16" => "intset.gid16.conc",
+        "intset.disc" => "intset.disc.conc",
+        "intset.ooo" => "intset.ooo.conc",
+        _ => "intset.other.conc",
+    };
+    s.case(group_c, req_c, if obs_c.is_empty() { "-".into() } else { obs_c.join(" | ") });
+}
+
+/// histories that create pages OUT OF MAJOR ORDER on both operands, leave empty pages behind, then
+/// call process (union / intersect / subtract, also through inverted operands = reversed_subtract)
+/// and keep inserting afterwards; `shape == 0` is the minimal shape seeded change C14-2 needed
+/// (left pages created in descending major order, intersect keeps a proper subset).
+fn gen_ooo<T: Dom>(rng: &mut Rng, shape: u64) -> Vec<Op> {
+    let max_major: u32 = if T::NAME == "u32" { 40 } else { 100 };
+    let val = |m: u32, off: u32| m * 512 + off;
+    if shape == 0 {
+        return vec![Op::Insert(0, val(3, 464)), Op::Insert(0, val(0, 5)), Op::Insert(0, val(1, 488)),
+            Op::Insert(1, val(1, 489)), Op::Insert(1, val(0, 7)), Op::Intersect(0, 1), Op::Insert(0, val(2, 1)), Op::Subtract(0, 1)];
+    }
+    let mut ops = vec![];
+    let mut majors: Vec<u32> = (0..(3 + rng.below(7) as u32)).map(|_| rng.below(max_major as u64) as u32).collect();
+    majors.dedup();
+    let offs = [0u32, 1, 63, 64, 255, 448, 510, 511];
+    for reg in 0..2usize {
+        // a shuffled subset of the majors per register (shared majors make Equal cases)
+        let mut ms: Vec<u32> = majors.iter().copied().filter(|_| rng.chance(2, 3)).collect();
+        for extra in 0..rng.below(3) { ms.push((rng.below(max_major as u64) as u32 + extra as u32) % max_major); }
+        for i in (1..ms.len()).rev() { let j = rng.below(i as u64 + 1) as usize; ms.swap(i, j); }
+        for m in &ms {
+            let off = offs[rng.below(offs.len() as u64) as usize];
+            match rng.below(6) {
+                0 => ops.push(Op::InsertRange(reg, val(*m, off), val(*m, 511) + rng.below(3) as u32 * 300)),
+                1 => ops.push(Op::Extend(reg, vec![val(*m, off), val(*m, (off + 7) % 512)])),
+                _ => ops.push(Op::Insert(reg, val(*m, off))),
+            }
+            if rng.chance(1, 4) { ops.push(Op::Remove(reg, val(*m, off))); } // may leave an empty page
+        }
+    }
+    for round in 0..(1 + rng.below(3)) {
+        if rng.chance(1, 4) { ops.push(Op::Invert(rng.below(2) as usize)); }
+        let (r, q) = if rng.chance(1, 2) { (0, 1) } else { (1, 0) };
+        ops.push(match rng.below(3) { 0 => Op::Union(r, q), 1 => Op::Intersect(r, q), _ => Op::Subtract(r, q) });
+        // interleave: new pages after a process, then process again
+        for _ in 0..rng.below(4) {
+            let m = rng.below(max_major as u64) as u32;
+            ops.push(Op::Insert(rng.below(2) as usize, val(m, offs[rng.below(offs.len() as u64) as usize])));
+        }
+        if round == 0 && rng.chance(1, 3) { ops.push(Op::Copy(2, r)); ops.push(Op::Intersect(2, q)); }
+    }
+    ops
 }
 
 fn pick_val<T: Dom>(rng: &mut Rng) -> u32 {
@@ -1026,6 +1201,11 @@ fn run_intset(cfg: &Config, s: &mut Session, rng: &mut Rng) {
     exhaustive::<u16>(s, 2);
     exhaustive::<u8>(s, 2);
     exhaustive::<Disc>(s, 2);
+    let n_ooo = if cfg.thorough() { 2000 } else { 200 };
+    for i in 0..n_ooo {
+        if i % 3 == 2 { let ops = gen_ooo::<u16>(rng, i); run_sequence::<u16>(s, "intset.ooo", &ops); }
+        else { let ops = gen_ooo::<u32>(rng, i); run_sequence::<u32>(s, "intset.ooo", &ops); }
+    }
     let n = if cfg.thorough() { 1500 } else { 120 };
     for i in 0..n {
         let len = if i % 10 == 0 { 150 + rng.below(150) as usize } else { 5 + rng.below(40) as usize };
